@@ -28,6 +28,7 @@ from . import pm
 from . import normal
 
 
+EXCEPTION_BASES = {}   # exception class name -> names of its base classes (set by the driver from the analysed tree)
 REPO = None      # set by the driver: lets every interpreter resolve calls of helpers that are not in the reference inventory
 
 
@@ -83,6 +84,14 @@ class _Break(Exception):
 
 class _Continue(Exception):
     pass
+
+
+class Raised(Exception):
+    '''raised by an atom / effect of a rule: in this abstract state the recognised operation throws the named exception'''
+    def __init__(self, exc_name, node=None):
+        Exception.__init__(self, exc_name)
+        self.exc_name = exc_name
+        self.node = node
 
 
 class _Done(Exception):
@@ -551,6 +560,52 @@ class Interp(object):
             return result.value
         return result
 
+    def _handler_for(self, st, exc_name):
+        for h in st.handlers:
+            if h.type is None:
+                return h
+            types = h.type.elts if isinstance(h.type, ast.Tuple) else [h.type]
+            for t in types:
+                nm = (src(t) or '').split('.')[-1]
+                if nm in ('Exception', 'BaseException') or nm == exc_name or nm in EXCEPTION_BASES.get(exc_name, ()):
+                    return h
+        return None
+
+    def _try(self, st, state, trace):
+        '''try / except / else / finally: exceptions are the ones rules raise for recognised operations (Raised) and `raise`
+        statements of the analysed code'''
+        def fin():
+            if st.finalbody:
+                self.block(st.finalbody, state, trace)
+        try:
+            self.block(st.body, state, trace)
+        except Raised as r_:
+            h = self._handler_for(st, r_.exc_name)
+            if h is None:
+                fin()
+                raise
+            trace.append(('caught', r_.exc_name))
+            try:
+                self.block(h.body, state, trace)
+            finally:
+                pass
+            fin()
+            return
+        except _Done as d:
+            if d.outcome.kind == 'raise' and d.outcome.node is not None and isinstance(d.outcome.node, ast.Raise):
+                from .rules.common import exception_class_name
+                nm = exception_class_name(d.outcome.node)
+                h = self._handler_for(st, nm) if nm else None
+                if h is not None:
+                    trace.append(('caught', nm))
+                    self.block(h.body, state, trace)
+                    fin()
+                    return
+            fin()
+            raise
+        self.block(st.orelse, state, trace)
+        fin()
+
     def block(self, stmts, state, trace):
         for st in stmts:
             self.stmt(st, state, trace)
@@ -632,6 +687,8 @@ class Interp(object):
             ast.copy_location(loop, st)
             ast.fix_missing_locations(loop)
             return self.stmt(loop, state, trace)
+        if isinstance(st, ast.Try):
+            return self._try(st, state, trace)
         if isinstance(st, ast.With):
             # the context managers of this repository (files, zip members) do not alter control flow: the body runs once
             for item in st.items:
@@ -705,6 +762,8 @@ class Interp(object):
             self.block(body, state, trace)
         except _Done as d:
             return d.outcome, trace
+        except Raised as r_:
+            return Outcome('raise', r_.node, ast.parse('%s()' % r_.exc_name).body[0].value), trace
         return Outcome('falloff', self.fn, None), trace
 
 
